@@ -57,11 +57,14 @@ REGIONS = {
 }
 
 
+KEY_ORDER_RNG = None  # set by run(): shuffles dict key order while rendering
+
+
 # --------------------------------------------------------------------------- generator
 
 
 def gen_tree(rng):
-    nctx = rng.choice([1, 1, 1, 2, 3])
+    nctx = rng.choice([1, 1, 1, 2, 3, 5])
     ctxs = []
     used_windows = set()
     for _ in range(nctx):
@@ -74,7 +77,7 @@ def gen_tree(rng):
                 c["window"] = w
         if rng.random() < 0.3:
             c["region"] = rng.choice(sorted(REGIONS))
-        for s in rng.sample(["temp", "salinity", "pressure", "v-1"], rng.choice([1, 1, 2, 3])):
+        for s in rng.sample(["temp", "salinity", "pressure", "v-1", "o2", "chl_a"], rng.choice([1, 1, 2, 3, 5])):
             keys = rng.sample(sorted(TESTS), rng.choice([1, 1, 2, 3, 5]))
             c["streams"][s] = [(m, t, rng.choice(TESTS[(m, t)])) for m, t in keys]
             if rng.random() < 0.3:
@@ -177,6 +180,13 @@ def plain(ctxs, time_as):
             for m, t, kw in tests:
                 st.setdefault(s, OrderedDict()).setdefault(m, OrderedDict())[t] = None if kw is None else json.loads(json.dumps(kw))
         d["streams"] = st
+        # key order is not part of the meaning: region/window/streams and starting/ending in any order
+        if KEY_ORDER_RNG is not None and KEY_ORDER_RNG.random() < 0.5:
+            ks = list(d)
+            KEY_ORDER_RNG.shuffle(ks)
+            d = OrderedDict((k, d[k]) for k in ks)
+            if "window" in d and len(d["window"]) == 2 and KEY_ORDER_RNG.random() < 0.5:
+                d["window"] = OrderedDict(reversed(list(d["window"].items())))
         out.append(d)
     return out
 
@@ -311,12 +321,14 @@ def json_to_dict(o):
 def run(ctx) -> None:
     from ioos_qc.config import Config
 
+    global KEY_ORDER_RNG
     rng = ctx.rng
+    KEY_ORDER_RNG = rng
     ctx.require("c07.configs_loaded", 1000)
     ctx.require("c07.carriers.xarray-per-variable", 5)
     scratch = P.Scratch()
     try:
-        for it in range(ctx.pick(150, 1200)):
+        for it in range(ctx.pick(100, 1200)):
             ctxs = gen_tree(rng)
             lays = ["contexts"]
             if len(ctxs) == 1:
